@@ -53,7 +53,11 @@ def pool():
         'ComplexModulus': lambda: odl.ComplexModulus(odl.cn(3)), 'ComplexModulusSquared': lambda: odl.ComplexModulusSquared(odl.cn(3)),
         'PowerOperator': lambda: odl.PowerOperator(r3, 3), 'InnerProductOperator': lambda: odl.InnerProductOperator(w3.element([1.0, -2.0, 0.5])),
         'NormOperator': lambda: odl.NormOperator(w3), 'DistOperator': lambda: odl.DistOperator(w3.element([1.0, -2.0, 0.5])),
-        'MultiplyOperator': lambda: odl.MultiplyOperator(w3.element([1.0, -2.0, 0.5])), 'ZeroOperator': lambda: odl.ZeroOperator(r3, w3), 'ConstantOperator': lambda: odl.ConstantOperator(w3.one(), r3),
+        'MultiplyOperator': lambda: odl.MultiplyOperator(w3.element([1.0, -2.0, 0.5])),
+        'MultiplyOperator(base-space field on a power space)': lambda: odl.MultiplyOperator(X.element(np.arange(12.0).reshape(3, 4) - 5.0), domain=X ** 2, range=X ** 2),
+        'MultiplyOperator(scalar)': lambda: odl.MultiplyOperator(2.5, domain=r3, range=r3), 'MultiplyOperator(array)': lambda: odl.MultiplyOperator(np.array([1.0, -2.0, 0.5]), domain=r3, range=r3),
+        'OperatorRightScalarMult(Laplacian)': lambda: odl.operator.operator.OperatorRightScalarMult(odl.Laplacian(X, pad_mode='symmetric'), 2.0),
+        'OperatorSum(Laplacian, PartialDerivative)': lambda: odl.Laplacian(X) + odl.PartialDerivative(X, 1, pad_mode='constant', pad_const=1.5), 'ZeroOperator': lambda: odl.ZeroOperator(r3, w3), 'ConstantOperator': lambda: odl.ConstantOperator(w3.one(), r3),
         'DiscreteFourierTransform': lambda: odl.trafos.DiscreteFourierTransform(odl.uniform_discr([0, 0], [1, 2], (3, 4), dtype='complex128')),
         'DiscreteFourierTransform(halfcomplex)': lambda: odl.trafos.DiscreteFourierTransform(odl.uniform_discr([0, 0], [1, 2], (3, 4)), halfcomplex=True),
         'FourierTransform': lambda: odl.trafos.FourierTransform(odl.uniform_discr([-1, 0], [1, 2], (3, 4), dtype='complex128')),
